@@ -112,6 +112,7 @@ SPECS["actor.rs::run_actor_lifecycle"] = dict(
     select_carrier="actor",
     dyn_calls={"handle_message": "vx_dyn__handle_message"},
     raii={"init:MessageProcessingGuard::new(": "drop__MessageProcessingGuard"},
+    explicit_drop_only=["$2"],     # actor_ref: the lifecycle's own strong reference
     # the two loop-carried flags are found by what they are initialised from, not by their names
     binders={"killed": r"let\s+mut\s+(\w+)\s*=\s*false\s*;", "idle": r"let\s+mut\s+(\w+)\s*=\s*true\s*;"},
     requires=[
